@@ -5,10 +5,13 @@ Model: `Model/Crc.lean` (CRC-32 register, `verify_crc_trailer_seek`),
 `Lemmas/Bytecode.lean`.
 `Model/Loader.lean` (header, sections, symbol table, dictionary: `load_program_from_bytes`),
 `Lemmas/Loader.lean`.
+`Model/Emit.lean` (the writer of a whole file, `ParsedProgram::to_bytes`, and the layout `compile` computes),
+`Lemmas/Emit.lean`.
 -/
 import MechVerif.Lemmas.Crc
 import MechVerif.Lemmas.Bytecode
 import MechVerif.Lemmas.Loader
+import MechVerif.Lemmas.Emit
 namespace MechVerif.C07
 open MechVerif.Crc MechVerif.Bytecode
 
@@ -198,6 +201,27 @@ theorem C07_dict_loop_terminates (d : List Byte) (valid : List Byte → Bool) (k
     readDict d valid (d.length + k) 0 = readDict d valid d.length 0 :=
   readDict_fuel_enough d valid k
 
+/-- **The whole file round-trips.**  Whatever `compile` lays out — any features, types, constant
+    entries, blob, symbols, instructions and dictionary, with the header's counts, offsets and
+    lengths computed from them (`Layout`) and every field within its on-disk width — the loader reads
+    back from the emitted bytes exactly the header, features, types, constant table, blob,
+    symbols, instructions and dictionary that were written: every section at its offset, nothing
+    lost, nothing reordered, and the CRC trailer check passes.  (The instruction stream must not
+    end in `Ret`: finding C07-D4, see `C07_counterexample_trailing_ret`.) -/
+theorem C07_file_roundtrip (valid : List Byte → Bool) (L : Loaded) (hl : Layout L) (hw : LoadedWf valid L) :
+    load valid (toBytes L) = .ok L := load_toBytes valid L hl hw
+
+/-- Decoding the emitted bytes and re-encoding the decoded program reproduces the same bytes. -/
+theorem C07_reencode_same_bytes (valid : List Byte → Bool) (L : Loaded) (hl : Layout L) (hw : LoadedWf valid L) :
+    ∀ L', load valid (toBytes L) = .ok L' → toBytes L' = toBytes L := by
+  intro L' h
+  rw [C07_file_roundtrip valid L hl hw] at h
+  cases h; rfl
+
+/-- The emitted file always carries a valid trailer, so it is damage — not the writer — that the
+    trailer check rejects. -/
+theorem C07_emitted_file_verifies (L : Loaded) : Crc.verify (toBytes L) = .ok () := verify_trailer _
+
 end loader
 
 /-! ### non-vacuity -/
@@ -224,6 +248,27 @@ example : symWf (7, true, 3) := by unfold symWf; decide
 example : readSymbols (writeSymbols [(7, true, 3), (9, false, 1)]) ((writeSymbols [(7, true, 3), (9, false, 1)]).length / 13) 0
     = .ok [(7, true, 3), (9, false, 1)] :=
   C07_symbols_roundtrip _ (by intro s hs; simp at hs; rcases hs with h | h <;> subst h <;> (unfold symWf; decide))
+/-- a file with one feature, one type, one constant, a blob, two symbols, two instructions and a dictionary entry -/
+def exLoaded : Loaded :=
+  { header := ⟨MECH, 1, 2, 0, 3, 2, 1, 129, 1, 141, 1, 159, 24, 183, 8, 26, 191, 217, 30, 247, 15, 0⟩,
+    features := [5], types := [(12, [1, 2])], consts := [⟨0, 1, 8, 0, 0, 0, 8⟩], blob := [0, 0, 0, 0, 0, 0, 0xF0, 0x3F],
+    symbols := [(7, true, 3), (9, false, 1)], instrs := [.constLoad 1 0, .binOp 7 0 1 2], dict := [(7, [0x61, 0x62, 0x63])] }
+example : Layout exLoaded := by
+  constructor <;> (simp [exLoaded, HEADER_SIZE, writeFeatures, writeTypes, writeType, writeConsts, writeConst, writeSymbols, writeSymbol,
+    writeDict, writeDictEntry, encodeInstrs, encodeInstr, leBytes_length])
+example : LoadedWf (fun _ => true) exLoaded := by
+  constructor
+  · unfold exLoaded Header.wf MECH; decide
+  · intro f hf; simp [exLoaded] at hf; subst hf; decide
+  · intro t ht; simp [exLoaded] at ht; subst ht; decide
+  · intro c hc; simp [exLoaded] at hc; subst hc; unfold constWf; decide
+  · intro s hs; simp [exLoaded] at hs; rcases hs with h | h <;> subst h <;> (unfold symWf; decide)
+  · intro i hi; simp [exLoaded] at hi; rcases hi with h | h <;> subst h <;> simp [Instr.wf, U32, U64]
+  · decide
+  · intro e he; simp [exLoaded] at he; subst he; unfold dictWf; decide
+  · have h1 : (toBytes exLoaded).length = (body exLoaded).length + 4 := by simp [toBytes, trailer]
+    have h2 : (body exLoaded).length = 262 := by decide +kernel
+    rw [h1, h2]; decide
 end loaderExamples
 
 end MechVerif.C07
